@@ -43,6 +43,12 @@ def make_base(kind, seed, workdir):
     ver, opts = kind
     bw = base_world(seed)["unsorted"]
     files = world.files_of(bw, seed)
+    if opts == "names":
+        # payload entries named like the editable fields
+        files = [(("comment",), files[0][1]),
+                 (("source", "private"), files[1][1]),
+                 (("announce",), files[2][1]),
+                 (("url-list", "httpseeds"), b"x")]
     parent = os.path.join(workdir, "payload")
     os.makedirs(parent, exist_ok=True)
     root = world.materialize(files, parent)
@@ -66,10 +72,29 @@ def make_base(kind, seed, workdir):
         meta[b"info"][b"zz"] = {b"k": b"\xfe"}
         return bencode.encode(meta)
     creator = {"v1": "TorrentFile", "v2": "Assembler2", "hy": "Assembler3"}[ver]
-    kw = dict(OPTS_ALL) if opts == "full" else {}
+    kw = dict(OPTS_ALL) if opts in ("full", "legacy") else {}
     tf.reset_process_state()
     out = os.path.join(workdir, "base.torrent")
-    return tf.create(creator, root, out, P0, **kw)
+    raw = tf.create(creator, root, out, P0, **kw)
+    if opts == "legacy":
+        # a metafile as older releases of this tool left it after an edit:
+        # keys in insertion order (comment / source / private after pieces,
+        # announce after info) -- well-formed but not canonical
+        m = bencode.decode(raw, strict=False)
+        info = m[b"info"]
+        iorder = [k for k in info if k not in (b"comment", b"source",
+                                               b"private")] + \
+            [k for k in (b"private", b"comment", b"source") if k in info]
+        torder = [k for k in m if k not in (b"announce", b"announce-list")] + \
+            [k for k in (b"announce-list", b"announce") if k in m]
+
+        def enc(v):
+            return bencode.encode(bencode.plain(v))
+        ibytes = b"d" + b"".join(enc(k) + enc(info[k]) for k in iorder) + b"e"
+        raw = b"d" + b"".join(
+            enc(k) + (ibytes if k == b"info" else enc(m[k]))
+            for k in torder) + b"e"
+    return raw
 
 
 # ------------------------------------------------------------- edit alphabet
@@ -293,9 +318,12 @@ class EditBFS:
             "finite value alphabet per field, so the search runs to a fixpoint "
             "(quick: two-field requests only from states of depth <= 1; "
             "thorough: from every state)",
-            "initial metafiles are canonical; foreign ones carry unknown keys "
-            "including non-UTF-8 byte strings; top-level keys named like "
-            "info-level editable fields are not in the alphabet",
+            "initial metafiles: own (bare / every option), foreign canonical "
+            "ones with unknown keys including non-UTF-8 byte strings and a "
+            "non-UTF-8 key, payloads whose entries are named like the "
+            "editable fields, and (C07 only) a well-formed but non-canonical "
+            "'legacy' metafile with keys in insertion order; top-level keys "
+            "named like info-level editable fields are not in the alphabet",
             "a string for a list field means its whitespace-separated items; "
             "clearing the tracker only requires `announce` to disappear",
         ]
@@ -309,7 +337,12 @@ class EditBFS:
     def groups(self, tier, seed):
         gs = []
         for ver in ("v1", "v2", "hy"):
-            for opts in ("bare", "full", "foreign"):
+            optsets = ["bare", "full", "foreign", "names"]
+            if self.id == "C07":
+                # non-canonical input: only C07 can be judged on it (C06 is
+                # about what torrentfile writes from canonical input)
+                optsets.append("legacy")
+            for opts in optsets:
                 for route in ("lib", "cli"):
                     gs.append({"kind": "bfs", "base": [ver, opts],
                                "route": route, "seed": seed, "tier": tier})
@@ -388,7 +421,8 @@ class EditBFS:
         thorough = g["tier"] == "thorough"
         # quick: the option-rich bases are explored to depth 2 only (their
         # fixpoint contains the bare base's fixpoint, explored completely)
-        depth_cap = 2 if (not thorough and base[1] == "full"
+        depth_cap = 2 if (not thorough and base[1] in ("full", "legacy",
+                                                       "names")
                           and route == "lib") else None
         reqs1, pairs = requests(route, g["tier"])
         reqs2 = reqs1 + pairs
@@ -506,7 +540,9 @@ class EditBFS:
                 "private"]
         worlds = base_world(seed)
         for wkey, w in sorted(worlds.items()):
-            for sh_w in (w, {"shape": "S1", "sizes": [2 * P0 + 7], "cids": [0]}):
+            for sh_w in (w, {"shape": "S1", "sizes": [2 * P0 + 7], "cids": [0]},
+                         {"shape": "D3d", "sizes": [2 * P0 + 1, 7, P0 + 5],
+                          "cids": [0, 1, 2]}):
                 files = world.files_of(sh_w, seed)
                 for mask in range(32):
                     kw = {}
